@@ -134,6 +134,25 @@ CLAIMED["C12"] = (
 NOT_APPLICABLE = {
 }
 
+ESYM = {"C01", "C02", "C03", "C07", "C11", "C12", "C16"}
+
+# clauses added after the first full pass (see DESIGN.md section 3)
+EXTRA = {
+    "C02": "Also: path rules are named by the fresh-name generator whose counter is never reset in reach of the entry points (P8).",
+    "C04": "Also: the JSON decoder reads the entry point's data text unchanged (E5), the decode dominates the normalisation (E6), explicit panics on the data path never carry nil (E7).",
+    "C06": "Also: no package-level variable is written in reach of the entry points, synchronised or not (D4).",
+    "C07": "Also: constraint templates declare no fixed-name local at rule-body scope (H7).",
+    "C10": "Also: no call leaves state behind in a package-level variable (G4); no package-level channel is used (G5).",
+    "C12": "Also: the JSON encoder's error is never dropped (J6), Negate keeps the component name (J7), the report stays a tree (J8).",
+    "C13": "Also: one sprintf argument per recorded variable; the lossy printed form of a rule never decides equality (Q5).",
+    "C14": "Also: no panic is swallowed while the lexical index is built (K5).",
+    "C15": "Also: the YAML decoder is handed the entry point's profile text unchanged (O5); operand lists are only permuted, never filtered (O6).",
+    "C16": "Also: the generated parser is handed the caller's string unchanged (X7); the tree builder keeps every operand (X8).",
+    "C17": "Also: explicit panics never carry nil (Z7); a deferred close of the event channel is the only close (Z8); locks are released by defer.",
+    "C18": "Also: every text handed to the library is a file's content as read (W5).",
+}
+
+
 def main():
     props = [json.loads(l) for l in open(os.path.join(HERE, "properties.jsonl"))]
     checks = []
@@ -142,6 +161,10 @@ def main():
         pid = p["id"]
         if pid in CLAIMED:
             tech, text, note, ref = CLAIMED[pid]
+            if pid in ESYM:
+                tech += "; rules about values built by the code (texts, lists, struct copies, per-case behaviour) are decided on a symbolic evaluation of the syntax (E-sym: tables unrolled, helpers interpreted, strings reduced to shapes), not on idioms"
+            if pid in EXTRA:
+                text += " " + EXTRA[pid]
             checks.append({
                 "property_id": pid,
                 "quick_cmd": "bin/acvlint check -property %s -tier quick" % pid,
@@ -173,7 +196,7 @@ def main():
         }],
         "checks": checks,
         "not_applicable": na,
-        "notes": "All checks are static analyses of /repo's working tree. fix: commits in /repo repair genuine defects found by the rules (listed as fixed: lines in known_findings.txt). tools/selftest.sh runs the checks against the seeded changes under seeded/ and mutants/.",
+        "notes": "All checks are static analyses of /repo's working tree. fix: commits in /repo repair genuine defects found by the rules (listed as fixed: lines in known_findings.txt). tools/selftest.py runs all checks against the breaking changes under seeded/ and mutants/ (must fire) and the behaviour-preserving refactorings under equiv/ (must stay silent), each in a scratch worktree; the last result is SELFTEST.md.",
     }
     with open(os.path.join(HERE, "MANIFEST.json"), "w") as f:
         json.dump(manifest, f, indent=1)
